@@ -34,7 +34,7 @@ UNSET = "<unset>"
 CACHE_KEY = "verifC16"
 # observations that no action of the specification reads: a divergence there cannot cascade, so it is reported
 # without blocking the states behind it
-NONBLOCKING = ("sameSerialAs",)
+NONBLOCKING = ("sameSerialAs", "dflag")
 
 
 # ------------------------------------------------------------------------------------------------------------
@@ -330,6 +330,8 @@ EXTRAS = {
     "blk": (("detailedNDens", [1.0e-3, 2.0e-3]), ("mgFlux", [1.0e13, 2.0e13]), ("adjMgFlux", [0.5, 0.25])),
     "asm": (("detailedNDens", [5.0e-3]),),
 }
+HEIGHT = [10.0, 20.0, 30.0]  # block height per grid value of the parent assembly (Block.setHeight)
+HEIGHT_FIELDS = ("_p_height", "_p_z", "_p_zbottom", "_p_ztop")
 PITCH = [1.0, 2.0, 3.0]  # hex pitch per grid value (block)
 TOP = [10.0, 20.0, 30.0]  # top axial bound per grid value (assembly)
 
@@ -348,6 +350,7 @@ class MiniAdapter:
         self.parameters = parameters
         self.name = profile
         self.prof = _profiles()[profile]
+        self.empty_grid = profile == "str-none-dict"
         self.gridrev = {}
         # probe the bindings once on throw-away objects (reverse tables; also proves the names exist)
         for c in ("asm", "blk", "cmp"):
@@ -374,7 +377,8 @@ class MiniAdapter:
             self.set_grid(c, o, 0)
         elif c == "blk":
             o = self.blocks.HexBlock("fuel", height=10.0)
-            o.spatialGrid = g.HexGrid.fromPitch(PITCH[0], numRings=2)
+            # (one profile runs with a block grid that has no locations yet: such a grid is falsy)
+            o.spatialGrid = g.HexGrid.fromPitch(PITCH[0], numRings=0 if self.empty_grid else 2)
             o.spatialGrid.armiObject = o
         elif c == "cmp":
             if i % 2 == 0:
@@ -421,6 +425,11 @@ class MiniAdapter:
         for i, pa in sorted(enumerate(parent, start=1)):
             if pa:
                 O[pa].add(O[i])
+        for i, c in enumerate(cls, start=1):
+            if c == "asm":
+                O[i].calculateZCoords()  # block z parameters and axial bounds consistent with the block heights
+            if c == "blk":
+                O[i].derivedMustUpdate = False  # (Block.add leaves it pending; the model starts settled)
         w = {"obj": O, "cls": {i: c for i, c in enumerate(cls, start=1)}, "orig": {i: i for i in O}, "stack": [],
              "err": "", "nd0": {}, "t0": {}, "rest0": {}, "od0": {}, "prof": self.name}
         ident0 = {id(v): k for k, v in O.items()}
@@ -504,6 +513,10 @@ class MiniAdapter:
                 self.set_grid(w["cls"][a["o"]], O[a["o"]], a["g"])
             elif n == "ReadGrid":
                 read_grid(O[a["o"]].spatialGrid)
+            elif n == "SetHeight":
+                O[a["o"]].setHeight(HEIGHT[a["g"]])
+            elif n == "SetDFlag":
+                O[a["o"]].derivedMustUpdate = bool(a["v"])
             elif n in ("DeepCopy", "Pickle"):
                 src = O[a["x"]]
                 new = copy.deepcopy(src) if n == "DeepCopy" else pickle.loads(pickle.dumps(src))
@@ -538,7 +551,7 @@ class MiniAdapter:
         O = w["obj"]
         live = sorted(O)
         ident = {id(v): k for k, v in O.items()}
-        val, rest, cass, cache, mcache, grid, ro, par, cls, ser, lk = [], [], [], [], [], [], [], [], [], [], []
+        val, rest, cass, cache, mcache, grid, ro, par, cls, ser, lk, dfl = [], [], [], [], [], [], [], [], [], [], [], []
         for i in live:
             o = O[i]
             c = w["cls"][i]
@@ -546,7 +559,10 @@ class MiniAdapter:
             names, base = w["rest0"][w["orig"][i]]
             d = o.p.__dict__
             r = 0
+            hgt = c == "blk" and o.parent is not None
             for nm, b in zip(names, base):
+                if hgt and nm in HEIGHT_FIELDS:
+                    continue  # (reported as the height token below)
                 x = _field(d, nm)
                 if type(b) is _Frozen:
                     if canon(x) != b.c:
@@ -555,7 +571,12 @@ class MiniAdapter:
                 elif x is not b and not same_value(x, b):
                     r = "%s: built with %r, now %r" % (nm[3:], _short(b), _short(x))
                     break
+            if hgt and r == 0:
+                h = tuple(d.get(f) for f in HEIGHT_FIELDS)
+                r = next((0 if g == 0 else 100 + g for g, H in enumerate(HEIGHT) if h == (H, H / 2.0, 0.0, H)),
+                         "height/z/zbottom/ztop: %r" % (h,))
             rest.append(r)
+            dfl.append(int(bool(getattr(o, "derivedMustUpdate", False))) if c == "blk" else 0)
             cass.append(o.p.assigned)
             cache.append(o.cached.get(CACHE_KEY, 0) if isinstance(o.cached, dict) else "?")
             mcache.append(o.material.cached.get(CACHE_KEY, 0) if c == "cmp" else 0)
@@ -576,7 +597,7 @@ class MiniAdapter:
             if c not in dass:
                 dass[c] = {p: self.prof[c][p].pdef(O[i]).assigned for p in ("p", "q")}
         return {"val": val, "rest": rest, "cass": cass, "dass": dass, "cache": cache, "mcache": mcache, "grid": grid,
-                "ro": ro, "parent": par, "cls": cls, "link": lk, "sameSerialAs": same, "depth": len(w["stack"]),
+                "dflag": dfl, "ro": ro, "parent": par, "cls": cls, "link": lk, "sameSerialAs": same, "depth": len(w["stack"]),
                 "err": w["err"]}
 
     def label(self, w, oid, p):
@@ -590,9 +611,20 @@ def read_grid(g):
         try:
             x = g.pitch
         except Exception as ex:  # (grids without a pitch say so by raising)
-            return type(ex).__name__
-        return tuple(None if y is None else float("%.10g" % y) for y in (x if isinstance(x, (tuple, list)) else (x,)))
-    return None
+            x = type(ex).__name__
+        pit = x if isinstance(x, str) else tuple(None if y is None else float("%.10g" % y) for y in (x if isinstance(x, (tuple, list)) else (x,)))
+    else:
+        pit = None
+    # axial meshes: the public bounds and the cell centres derived from them (where the blocks sit)
+    zs = None
+    try:
+        b = g.getBounds()[2]
+        if b is not None:
+            zs = tuple(float("%.10g" % y) for y in b) + tuple(
+                float("%.10g" % g.getCoordinates((0, 0, k))[2]) for k in range(len(b) - 1))
+    except Exception as ex:
+        zs = type(ex).__name__
+    return (pit, zs)
 
 
 HIDDEN = 99  # RetainState!Hidden
@@ -755,7 +787,7 @@ def make_key(act, d, parent, behaviour, labeller, reshaped, err_exp, err_seen):
     parts = [n, top]
     if top == "val":
         parts.append(labeller(oidx, path.rsplit(".", 1)[-1]))
-    if n in ("Enter", "Exit") and oidx is not None:
+    if n in ("Enter", "Exit") and oidx is not None and top != "dflag":
         where, inner = scope_class(parent, behaviour, oidx)
         if top == "mcache":
             parts.append("own-material-of-scope-root" if where == "root" else "material-below-root")
@@ -826,7 +858,7 @@ def cover(graph, adapter, targets, maxwalk=14, on_div=None):
     st = {"walks": 0, "steps": 0, "covered": 0, "nontrivial": 0, "blocked": 0, "divergent": 0}
     divs = []
     valid = set()
-    nbdiv = set()
+    nbdiv = {}
     oi = 0
     while oi < len(order):
         eid = order[oi]
@@ -862,14 +894,18 @@ def cover(graph, adapter, targets, maxwalk=14, on_div=None):
             if s["_id"] in valid:
                 continue  # an edge of the path that was already executed and compared under this adapter
             if s["_id"] in nbdiv:
-                tainted.update(NONBLOCKING)
+                tainted.update(nbdiv[s["_id"]])
                 continue
             got = adapter.project(w)
             exp = s["obs"]
             d = rp.diff({x: v for x, v in exp.items() if x not in NONBLOCKING}, got)
-            d2 = None
+            d2, f2 = None, None
             if d is None:
-                d2 = rp.diff({x: v for x, v in exp.items() if x in NONBLOCKING and x not in tainted}, got)
+                for f2 in NONBLOCKING:
+                    if f2 in exp and f2 not in tainted:
+                        d2 = rp.diff({f2: exp[f2]}, got)
+                        if d2:
+                            break
             if d or d2:
                 rec = {"edge": s["_id"], "first_difference": d or d2, "action": s["act"], "from": s["from"],
                        "behaviour": [x["act"] for x in walk[: k + 1]], "expected": exp, "observed": got,
@@ -885,8 +921,8 @@ def cover(graph, adapter, targets, maxwalk=14, on_div=None):
                     if s["_id"] in tree:
                         pre, tree = graph.bfs(bad)
                     break
-                tainted.update(NONBLOCKING)
-                nbdiv.add(s["_id"])
+                tainted.add(f2)
+                nbdiv[s["_id"]] = {f2}
             else:
                 valid.add(s["_id"])
             if s["_id"] in todo:
@@ -908,7 +944,7 @@ MC_QUICK = {
     "all": ("RetainState_mc.cfg", ("Enter", "Exit", "Assign", "AssignRO", "SetCache", "SetGrid", "Copy", "MakeReadOnly",
                                    "CallRO", "WriteDb", "LoadDbV")),
     "params": ("RetainState_mcP.cfg", P_ACTS),
-    "grid": ("RetainState_mcG.cfg", ("Enter", "Exit", "SetGrid", "SetCache")),
+    "grid": ("RetainState_mcG.cfg", ("Enter", "Exit", "SetGrid", "SetCache", "SetDFlag")),
     "copy": ("RetainState_mcC.cfg", ("Assign", "AssignRO", "Copy", "MakeReadOnly")),
     "db": ("RetainState_mcD.cfg", ("WriteDb", "LoadDbV", "Copy", "Assign", "AssignRO")),
     "links": ("RetainState_mcL.cfg", ("Enter", "Exit", "Assign", "Copy")),
@@ -928,6 +964,7 @@ EMIT_QUICK = {
     "links": ("RetainState_emitL.cfg", True, ("links",)),
     "unset+same-name": ("RetainState_emitU.cfg", True, ("unset", "same-name")),
     "read-only": ("RetainState_emitR.cfg", True),
+    "freeze-in-scope": ("RetainState_emitF.cfg", False),
     "copy": ("RetainState_emitC.cfg", False),
     "grid": ("RetainState_emitG.cfg", False),
     "params": ("RetainState_emitP.cfg", False),
@@ -936,6 +973,8 @@ EMIT_THOROUGH = {
     "links": ("RetainState_emitL_thorough.cfg", True, ("links",)),
     "unset+same-name": ("RetainState_emitU_thorough.cfg", True, ("unset", "same-name")),
     "read-only": ("RetainState_emitR.cfg", True),
+    "freeze-in-scope": ("RetainState_emitF.cfg", True),
+    "grid-heights": ("RetainState_emitG2_thorough.cfg", False),
     "read-only-copies": ("RetainState_emitR_thorough.cfg", False),
     "copy": ("RetainState_emitC_thorough.cfg", False),
     "grid": ("RetainState_emitG_thorough.cfg", False),
@@ -983,6 +1022,10 @@ def report_div(rep, d, adapter, direction):
     resh = kept_reshaped(d["from"], adapter.prof) if d.get("from") else bool(d.get("reshaped"))
     key = make_key(act, d["first_difference"], d["root"]["parent"], d["behaviour"], lab, resh,
                    d["expected"].get("err", ""), d["observed"].get("err", ""))
+    m = _IDX.search(d["first_difference"].split(":")[0])
+    if (key.startswith(("Enter:grid", "Exit:grid")) and getattr(adapter, "empty_grid", False) and m
+            and d["observed"]["cls"][int(m.group(1))] == "blk"):
+        key = ":".join(key.split(":")[:2]) + ":empty-grid"  # the block's grid has no locations yet (`if self.spatialGrid:` is False for it)
     what = "real armi objects diverge from RetainState after %s [%s]: %s%s" % (
         json.dumps(act), adapter.name, d["first_difference"], (" (" + d["errtext"] + ")") if d.get("errtext") else "")
     payload = {k: v for k, v in d.items() if k not in ("from",)}
@@ -1165,6 +1208,15 @@ class ReactorRecorder:
                 if k % 2 == 0:  # what depletion leaves behind: detailed / pin-wise number densities as arrays
                     c.p.detailedNDens = np.array([1.0e-3, 2.0e-3, 3.0e-3])
                     c.p.pinNDens = np.array([[1.0e-3, 2.0e-3]])
+            # a 1/3-core model: the only assembly sits at the centre, its blocks are cut by the symmetry lines
+            from armi.reactor import geometry
+
+            r.core.symmetry = geometry.SymmetryType(geometry.DomainType.THIRD_CORE, geometry.BoundaryType.PERIODIC)
+            r.core.clearCache()
+            for c in r.iterChildren(deep=True, predicate=lambda x: isinstance(x, component.Component)):
+                c.getVolume()
+            if r.core[0][0].getSymmetryFactor() != 3.0:
+                raise tlc.MachineryError("the central block is not on a symmetry line")
             for b in r.core.iterChildren(deep=True, predicate=lambda x: isinstance(x, blocks.Block)):
                 b.p.mgFlux = np.array([1.0e13, 2.0e13])
                 b.p.detailedNDens = np.array([1.0e-3, 2.0e-3])
@@ -1279,7 +1331,7 @@ class ReactorRecorder:
         O = w["obj"]
         live = sorted(O)
         ident = {id(v): k for k, v in O.items()}
-        val, rest, cass, cache, mcache, grid, ro, par, cls, ser, lk = [], [], [], [], [], [], [], [], [], [], []
+        val, rest, cass, cache, mcache, grid, ro, par, cls, ser, lk, dfl = [], [], [], [], [], [], [], [], [], [], [], []
         for i in live:
             o = O[i]
             f = w["cls"][i]
@@ -1290,7 +1342,9 @@ class ReactorRecorder:
             skip.add("_p_serialNum")
             rest.append(self.vid(w, "rid", tuple(canon(_field(d, pd.fieldName)) for pd in o.p.paramDefs
                                                  if pd.fieldName not in skip)))
-            lk.append(link_of(o, ident))
+            t_ = link_of(o, ident)
+            lk.append(t_ if isinstance(t_, int) else -1)  # (TLC compares integers: an unresolvable link is -1)
+            dfl.append(int(bool(getattr(o, "derivedMustUpdate", False))) if f == "blk" else 0)
             cass.append(o.p.assigned)
             cache.append(o.cached.get(CACHE_KEY, 0))
             mcache.append(o.material.cached.get(CACHE_KEY, 0) if f == "cmp" else 0)
@@ -1300,7 +1354,7 @@ class ReactorRecorder:
             cls.append(f)
             ser.append(o.p.serialNum)
         same = [min(j for j, s in zip(live, ser) if s == ser[k]) for k in range(len(live))]
-        return {"val": val, "rest": rest, "cass": cass, "cache": cache, "mcache": mcache, "grid": grid, "ro": ro,
+        return {"val": val, "rest": rest, "cass": cass, "cache": cache, "mcache": mcache, "grid": grid, "dflag": dfl, "ro": ro,
                 "parent": par, "cls": cls, "link": lk, "sameSerialAs": same, "depth": len(w["stack"]), "err": w["err"]}
 
     # -- random concrete values ------------------------------------------------------------------------
@@ -1332,6 +1386,7 @@ class ReactorRecorder:
         live = sorted(O)
         kind = force["kind"] if force else rng.choice(
             ["Enter"] * 4 + ["Exit"] * 4 + ["Assign"] * 7 + ["Ndens"] * 3 + ["Temp"] * 2 + ["Mutate"] * 2 + ["SetCache"] * 3
+            + ["SetHeight"] * 2
             + ["SetGrid"] * 3 + ["ReadGrid"] + ["DeepCopy", "DeepCopy", "Pickle", "MakeReadOnly", "WriteDb", "LoadDb", "LoadDbRO"] + ["RO"] * 4)
         writable = [i for i in live if not O[i].p.readOnly]
         frozen = [i for i in live if O[i].p.readOnly]
@@ -1370,6 +1425,8 @@ class ReactorRecorder:
                     s is not None and shape_of(O[i].p.__dict__.get("_p_" + RBIND[w["cls"][i]][p])) not in (None, s)
                     for (i, p), s in shapes.items())
                 sr = w["stack"].pop()
+                if sr.composite.p.readOnly:
+                    x["refused-exit"] = True  # frozen inside the scope: the specification says the exit is refused
                 sr.__exit__(None, None, None)
             elif kind == "Assign":
                 cands = [i for i in writable if RBIND[w["cls"][i]]]
@@ -1420,6 +1477,31 @@ class ReactorRecorder:
                 tag = rng.randrange(1, 9)
                 a = {"n": "SetCache", "o": o, "w": which, "tag": tag}
                 (O[o] if which == "obj" else O[o].material)._setCache(CACHE_KEY, tag)
+            elif kind == "SetHeight":
+                cands = [i for i in writable if w["cls"][i] == "blk" and O[i].parent is not None
+                         and w["cls"].get(self.ident(w, O[i].parent)) == "asm"]
+                if not cands:
+                    return None
+                o = rng.choice(cands)
+                touched = sorted(self.subtree(w, self.ident(w, O[o].parent)))
+                if any(O[j].p.readOnly for j in touched):
+                    return None
+                a = {"n": "Havoc", "o": o, "touched": touched, "call": "setHeight"}
+                O[o].setHeight(rng.choice([10.0, 25.0, 40.0]) + rng.choice([0.0, 0.5]))
+            elif kind == "ParamsFrom":
+                ident_ = {id(v): k for k, v in O.items()}
+                pairs = [(i, j) for i in writable for j in live if i != j and type(O[i]) is type(O[j])
+                         and w["cls"][i] in ("cmp", "blk", "asm") and link_of(O[j], ident_) == 0]  # (no links taken over)
+                if not pairs:
+                    return None
+                dst, src = rng.choice(pairs)
+                how = rng.choice(["CopyParams", "UpdateParams"])
+                a = {"n": how, "o": dst, "src": src}
+                if how == "CopyParams":
+                    O[dst].copyParamsFrom(O[src])
+                else:
+                    O[dst].updateParamsFrom(O[src])
+                w["dirty"] = True
             elif kind == "ReadGrid":
                 cands = [i for i in live if O[i].spatialGrid is not None]
                 if not cands:
@@ -1490,8 +1572,8 @@ class ReactorRecorder:
                     w["cls"][to[s]] = w["cls"][s]
             elif kind == "MakeReadOnly":
                 roots = [i for i in live if O[i].parent is None and any(not O[j].p.readOnly for j in self.subtree(w, i))]
-                if w["stack"] or not roots or rng.random() < 0.5:
-                    return None
+                if not roots or rng.random() < (0.8 if w["stack"] else 0.5):
+                    return None  # (mostly outside scopes; sometimes while scopes are open: their exits are then refused)
                 r = rng.choice(roots)
                 a = {"n": "MakeReadOnly", "r": r}
                 from armi.reactor import reactorParameters
@@ -1538,6 +1620,12 @@ class ReactorRecorder:
             ev["x"] = x
         return ev
 
+    def ident(self, w, obj):
+        for k, v in w["obj"].items():
+            if v is obj:
+                return k
+        return None
+
     def block_family(self, w, o):
         """the objects a component mutator may touch: the component, its siblings and their parent"""
         c = w["obj"][o]
@@ -1559,10 +1647,10 @@ class ReactorRecorder:
         else:
             g.changePitch(rng.choice([1.0, 2.0, 3.0]), rng.choice([1.0, 2.5]))
 
-    def record(self, tid, nev, rng, directed=False):
+    def record(self, tid, nev, rng, directed=False, closing=False):
         w = self.new_world()
         p0 = self.project(w)
-        init = {k: p0[k] for k in ("parent", "cls", "val", "rest", "cass", "grid", "link")}
+        init = {k: p0[k] for k in ("parent", "cls", "val", "rest", "cass", "grid", "link", "dflag")}
         ev = []
         tries = 0
         # every fourth history starts with: write the reactor, make objects, load the snapshot, make more objects
@@ -1575,8 +1663,15 @@ class ReactorRecorder:
                 if e is None:
                     continue
                 ev.append(e)
-                if e["post"]["err"] and e["a"]["n"] not in ("AssignRO", "CallRO"):
+                if e["post"]["err"] and e["a"]["n"] not in ("AssignRO", "CallRO") and not e.get("x", {}).get("refused-exit"):
                     break  # an operation that must succeed raised: the objects are in an undefined state
+            else:
+                # last event of every other history: copyParamsFrom / updateParamsFrom (they take over values BY
+                # REFERENCE and replace the collection, so nothing sensible can follow them in a storm)
+                if closing:
+                    e = self.step(w, rng, force={"kind": "ParamsFrom"})
+                    if e is not None:
+                        ev.append(e)
         finally:
             self.dispose(w)
         return {"id": tid, "init": init, "ev": ev}
@@ -1679,7 +1774,7 @@ def traces_collect(thorough, seed, recorder=None, ntraces=None):
     nt = ntraces or (200 if thorough else 40)
     nev = 60 if thorough else 40
     t0 = time.time()
-    traces = [rec.record("t%d" % t, nev, rng, directed=(t % 4 == 0)) for t in range(nt)]
+    traces = [rec.record("t%d" % t, nev, rng, directed=(t % 4 == 0), closing=(t % 2 == 1)) for t in range(nt)]
     t_rec = time.time() - t0
     bad, stats = tracecheck.validate("RetainState_trace", "RetainState_trace.cfg", MODDIR, traces, timeout=3000)
     res = stats["tlc"]
@@ -1703,15 +1798,16 @@ def traces_collect(thorough, seed, recorder=None, ntraces=None):
     first_serial = {}
     for p in res.prints:
         if isinstance(p, dict) and "serial" in p:
-            if p["serial"] not in first_serial or p["at"] < first_serial[p["serial"]]["at"]:
-                first_serial[p["serial"]] = p
-    for tidn, p in sorted(first_serial.items()):
+            fk = (p["serial"], p.get("field", "sameSerialAs"))
+            if fk not in first_serial or p["at"] < first_serial[fk]["at"]:
+                first_serial[fk] = p
+    for (tidn, fld), p in sorted(first_serial.items()):
         tr = byid[tidn]
         k = p["at"] - 1
         e = tr["ev"][k]
-        d = rp.diff({"sameSerialAs": p["expected"]["sameSerialAs"]}, e["post"])
+        d = rp.diff({fld: p["expected"][fld]}, e["post"])
         beh = [x["a"] for x in tr["ev"][: k + 1]]
-        key = make_key(e["a"], d or ".sameSerialAs", tr["init"]["parent"], beh, None, False, "", "")
+        key = make_key(e["a"], d or "." + fld, tr["init"]["parent"], beh, None, False, "", "")
         viol(key, "recorded history on the reactor is not a behaviour of RetainState at event %d %s: %s" % (
             k + 1, json.dumps(e["a"]), d), {"direction": "trace", "matched": k, "first_difference": d, "behaviour": beh,
                                             "expected": p["expected"], "observed": e["post"], "trace_id": tidn})
@@ -1845,7 +1941,7 @@ def replay(payload):
         want = payload["trace_id"]
         tr = None
         for t in range(200 if thorough else 40):
-            tr = rec.record("t%d" % t, 60 if thorough else 40, rng, directed=(t % 4 == 0))
+            tr = rec.record("t%d" % t, 60 if thorough else 40, rng, directed=(t % 4 == 0), closing=(t % 2 == 1))
             if tr["id"] == want:
                 break
         bad, stats = tracecheck.validate("RetainState_trace", "RetainState_trace.cfg", MODDIR, [tr])
@@ -2087,6 +2183,43 @@ def _mutants():
             H.changePitch = oldc
         return undo
     out.append(("HexGrid.pitch memoised, not invalidated by restoreBackup", m_r2_pitch))
+
+    # ---- third seeding round ----
+    def m_r3_bounds():  # calculateZCoords refreshes the k-bounds array in place (the grid backup holds the same array)
+        from armi.reactor import assemblies
+
+        orig = assemblies.Assembly.calculateZCoords
+
+        def czc(self):
+            old = self.spatialGrid._bounds[2]
+            orig(self)
+            new = self.spatialGrid._bounds[2]
+            if old is not None and len(old) == len(new):
+                old[:] = new
+                b = list(self.spatialGrid._bounds)
+                b[2] = old
+                self.spatialGrid._bounds = tuple(b)
+        return swap(assemblies.Assembly, "calculateZCoords", czc)
+    out.append(("calculateZCoords refreshes the axial bounds in place", m_r3_bounds))
+
+    def m_r3_dict():  # __setstate__ writes into __dict__: the read-only guard is bypassed at scope exit
+        def ss(self, state):
+            self.__dict__.update(zip(self._allFields, state))
+        return swap(PC, "__setstate__", ss)
+    out.append(("__setstate__ bypasses the read-only guard", m_r3_dict))
+
+    def m_r3_sym():  # Block.__deepcopy__ clears the cache of copies of blocks on a symmetry line (component volumes -> None)
+        from armi.reactor import blocks
+
+        orig = blocks.Block.__deepcopy__
+
+        def dc(self, memo):
+            b = orig(self, memo)
+            if self.getSymmetryFactor() != 1.0:
+                b.clearCache()
+            return b
+        return swap(blocks.Block, "__deepcopy__", dc)
+    out.append(("deep copy of a block on a symmetry line drops component volumes", m_r3_sym))
     return out
 
 
